@@ -102,7 +102,7 @@ func collectLayout(p *core.Prog, pkg, name string) *layoutFn {
 // finite-quotient evaluation).
 func C16(p *core.Prog, r *core.Report) {
 	r.Rule("LAYOUT", "the ORIGIN layout parameters agree across NewOrigin, (*Origin).Bytes, toOriginLength, fromOriginLength, validateOrigin and slowGenBankOriginParser: index width W (the %Wd verbs), group size G and residues per line L (loop steps and bounds), bytes per full line B = W + (L/G)(G+1) + 1; every integer constant > 1 in each function is one of W, W+1, W+3, G, G+1, L, B", 10)
-	r.Rule("LAYOUT-ARITH", "toOriginLength(n) equals the layout's byte count and fromOriginLength(toOriginLength(n)) = n for every residue class of n modulo L (three quotients each); exact because each function uses its parameter only as the dividend of / and % by L resp. B", 2)
+	r.Rule("LAYOUT-ARITH", "toOriginLength(n) equals the layout's byte count and fromOriginLength(toOriginLength(n)) = n for every residue class of n modulo L (three quotients each); exact because each function uses its parameter only as the dividend of / and % by L resp. B; (Origin).Len reports the residue count of undecoded and decoded buffers", 3)
 	r.NotDecided = append(r.NotDecided, "the residues recovered by (*Origin).Bytes", "equivalence of the fast and the slow validation path on all blocks", "NewOrigin's byte-by-byte output")
 	fns := map[string]*layoutFn{}
 	for _, n := range []struct{ pkg, name string }{
@@ -233,6 +233,34 @@ func C16(p *core.Prog, r *core.Report) {
 			r.Bad("LAYOUT-ARITH", "seqio.fromOriginLength", p.Pos(fns["fromOriginLength"].fd.Pos()), bad+": Len() and Bytes() disagree with what was written")
 		}
 	}
+	// Origin.Len: the length reported without decoding equals the number of residues
+	lenFn := p.FuncDecl(core.PkgSeqio, "Origin.Len")
+	if lenFn == nil {
+		r.Und("LAYOUT-ARITH", "seqio.Origin.Len|anchor", "-", "anchor-unresolved")
+	} else {
+		r.Fn("seqio.Origin.Len")
+		bad := ""
+		for n := int64(0); n < 3*L && bad == ""; n++ {
+			res, err := orders.EvalMethodOnStruct(p, core.PkgSeqio, "Origin.Len", map[string]int64{"Buffer": oracle(n)}, map[string]bool{"Parsed": false})
+			if err != nil {
+				r.Und("LAYOUT-ARITH", "seqio.Origin.Len", p.Pos(lenFn.Pos()), err.Error())
+				bad = "-"
+				break
+			}
+			if res.Int != n {
+				bad = fmt.Sprintf("an undecoded block of %d residues (%d bytes) reports length %d", n, oracle(n), res.Int)
+			}
+			res, err = orders.EvalMethodOnStruct(p, core.PkgSeqio, "Origin.Len", map[string]int64{"Buffer": n}, map[string]bool{"Parsed": true})
+			if err == nil && res.Int != n && bad == "" {
+				bad = fmt.Sprintf("a decoded buffer of %d residues reports length %d", n, res.Int)
+			}
+		}
+		if bad == "" {
+			r.Ok("LAYOUT-ARITH", "seqio.Origin.Len", p.Pos(lenFn.Pos()), fmt.Sprintf("Len() equals the residue count for undecoded blocks of all %d residue classes x 3 quotients and for decoded buffers", L))
+		} else if bad != "-" {
+			r.Bad("LAYOUT-ARITH", "seqio.Origin.Len", p.Pos(lenFn.Pos()), bad+": Len() and Bytes() disagree, so edits shift features by the wrong amount")
+		}
+	}
 }
 
 // leapYear decides the Gregorian rule by finite-quotient evaluation (C01 CALENDAR).
@@ -260,4 +288,21 @@ func leapYear(p *core.Prog, r *core.Report) {
 		}
 	}
 	r.Ok("CALENDAR", "seqio.isLeapYear", p.Pos(fd.Pos()), "Gregorian rule for all 400 residues of the year")
+}
+
+// OriginLen is the Len()/layout agreement alone (used by C02: Insert and Embed
+// move host features by Len(guest), which for a scanned GenBank guest is
+// (Origin).Len of the undecoded block).
+func OriginLen(p *core.Prog, r *core.Report) {
+	tmp := core.NewReport(r.Property)
+	C16(p, tmp)
+	r.Rule("LEN", "Len(guest) - the amount Insert/Embed move host features by - equals the guest's residue count also for an undecoded GenBank ORIGIN block ((Origin).Len against the layout, all residue classes)", 1)
+	for _, o := range tmp.Obs {
+		if o.Key == "LAYOUT-ARITH|seqio.Origin.Len" || o.Key == "LAYOUT-ARITH|seqio.fromOriginLength" {
+			o.Rule = "LEN"
+			o.Key = "LEN|" + o.Key[len("LAYOUT-ARITH|"):]
+			r.Obs = append(r.Obs, o)
+		}
+	}
+	r.Fn("seqio.Origin.Len")
 }
